@@ -119,18 +119,26 @@ def _lib(stage, fn, **extra):
                     "%s at %s" % (type(ex).__name__, frames[-1]), "no exception", exc=type(ex).__name__, **extra)
 
 
-def _which_epoch(base, snap):
+def _which_epoch(states, snap):
     """Which epochs' saved states a loaded snapshot equals (model part, optimizer part)."""
-    me = [j + 1 for j, b in enumerate(base) if b["snap"]["tag"] == snap["tag"] and b["snap"]["w"] == snap["w"]]
-    oe = [j + 1 for j, b in enumerate(base) if b["snap"]["buf"] == snap["buf"] and b["snap"]["lrs"] == snap["lrs"]]
+    me = [j for j, b in sorted(states.items()) if b["tag"] == snap["tag"] and b["w"] == snap["w"]]
+    oe = [j for j, b in sorted(states.items()) if b["buf"] == snap["buf"] and b["lrs"] == snap["lrs"]]
     return (me[0] if me else None), (oe[0] if oe else None)
 
 
-def _recover_and_verify(cfg, root, base, e):
-    """Everything the statement promises about a controller started after the crash in update ``e``."""
+def _recover_and_verify(cfg, root, base, e, states, salt=1):
+    """Everything the statement promises about a controller started after a crash in update ``e``.
+
+    ``states[j]`` is the (model, optimizer) state that the update which recorded epoch j had in hand, i.e. "the
+    parameters that were saved for that epoch"; for j == e it is the state at the moment of the crash. Training
+    continued after the crash uses ``salt`` so that a repeated epoch yields *different* parameters than the
+    attempt that died (stale files are then distinguishable); the metrics, hence the history, are the case's.
+    """
+    states = dict(states)
     n_total = len(cfg["val"])
     final_csv = base[-1]["csv"]
     s = T.Session(cfg, root)
+    s.salt = salt
     ctl = _lib("construct", lambda: T.make_controller(cfg, s.csv, s.sdir))
     s.ctl = ctl
     L = ctl.get_last_epoch()
@@ -150,35 +158,34 @@ def _recover_and_verify(cfg, root, base, e):
     elif L:
         raise _Fail("history_prefix", "history file missing", None, L)
     # --- last recorded epoch: model and optimizer
+    m, o = _lib("load_last", lambda: _load_last(ctl, cfg, 11), recorded_last=L)
     if L >= 1:
-        m, o = _lib("load_last", lambda: _load_last(ctl, cfg, 11), recorded_last=L)
         snap = T.snapshot(m, o)
-        if snap != base[L - 1]["snap"]:
-            me, oe = _which_epoch(base, snap)
+        if snap != states[L]:
+            me, oe = _which_epoch(states, snap)
             raise _Fail("load_last", "state loaded for the last recorded epoch is not the state saved for it", snap,
-                        base[L - 1]["snap"], recorded_last=L, loaded_model_epoch=me, loaded_optim_epoch=oe)
-    else:
-        m, o = _lib("load_last", lambda: _load_last(ctl, cfg, 11), recorded_last=L)
-    # --- best epoch: model
+                        states[L], recorded_last=L, loaded_model_epoch=me, loaded_optim_epoch=oe)
+    # --- best epoch: model alone, and model + optimizer
     b = ctl.get_best_epoch()
     exp_b = T.best_epoch(cfg["val"][:L])
     if b != exp_b:
         raise _Fail("load_best", "best epoch of the recovered history", b, exp_b)
     if b >= 1:
         got = _lib("load_best", lambda: _load_best_model(ctl, cfg, 12), best=b)
-        exp = {"tag": base[b - 1]["snap"]["tag"], "w": base[b - 1]["snap"]["w"]}
+        exp = {"tag": states[b]["tag"], "w": states[b]["w"]}
         if got != exp:
             raise _Fail("load_best", "model loaded for the best epoch is not the model saved for it", got, exp, best=b)
         got = _lib("load_best", lambda: _load_epoch(ctl, cfg, b, 13), best=b)
-        if got != base[b - 1]["snap"]:
+        if got != states[b]:
             raise _Fail("load_best", "model + optimizer loaded for the best epoch are not the states saved for it", got,
-                        base[b - 1]["snap"], best=b)
+                        states[b], best=b)
     # --- continue training to the end
     s.model, s.opt = m, o
     conts = []
     while L < n_total and _lib("continue", ctl.continue_training):
         conts.append(_lib("continue", lambda: s.epoch(cfg["train"][L], cfg["val"][L])))
         L += 1
+        states[L] = T.snapshot(s.model, s.opt)
     exp_conts = [r["cont"] for r in base[len(base) - len(conts):]] if conts else []
     if L != len(base) or conts != exp_conts:
         raise _Fail("continue", "continued run stops at a different epoch / with different decisions",
@@ -187,9 +194,9 @@ def _recover_and_verify(cfg, root, base, e):
     if csv != final_csv:
         raise _Fail("continue", "history file after continuing differs from the uninterrupted one",
                     None if csv is None else csv.decode(), final_csv.decode())
-    snap = T.snapshot(s.model, s.opt)
-    if snap != base[-1]["snap"]:
-        raise _Fail("continue", "final parameters / optimizer state differ from the uninterrupted run", snap, base[-1]["snap"])
+    lrs = [g["lr"] for g in s.opt.param_groups]
+    if lrs != base[-1]["snap"]["lrs"]:
+        raise _Fail("continue", "optimizer rates at the end differ from the uninterrupted run", lrs, base[-1]["snap"]["lrs"])
     # --- and what the final files hold, through yet another controller
     ctl2 = _lib("final_load", lambda: T.make_controller(cfg, s.csv, s.sdir))
     vals = cfg["val"][:L]
@@ -199,21 +206,24 @@ def _recover_and_verify(cfg, root, base, e):
         epochs = [L]
     for j in epochs:
         got = _lib("final_load", lambda: _load_epoch(ctl2, cfg, j, 20 + j), epoch_loaded=j)
-        if got != base[j - 1]["snap"]:
-            raise _Fail("final_load", "state of epoch %d after the continued run" % j, got, base[j - 1]["snap"])
+        if got != states[j]:
+            raise _Fail("final_load", "state of epoch %d after the continued run" % j, got, states[j], epoch_loaded=j)
 
 
 def _replay_until(cfg, root, e):
-    """A fresh run of epochs 1..e-1 (no crash); returns the session positioned before update e."""
+    """A fresh run of epochs 1..e-1 (no crash); returns the session positioned before update e and the
+    states saved so far."""
     s = T.Session(cfg, root)
     s.start()
+    states = {}
     for i in range(e - 1):
         s.epoch(cfg["train"][i], cfg["val"][i])
-    return s
+        states[i + 1] = T.snapshot(s.model, s.opt)
+    return s, states
 
 
 def _crash_point(cfg, root, base, e, k, when):
-    s = _replay_until(cfg, root, e)
+    s, states = _replay_until(cfg, root, e)
     inj = T.FaultInjector(k, when)
     try:
         with inj.installed():
@@ -224,10 +234,11 @@ def _crash_point(cfg, root, base, e, k, when):
         raise RuntimeError("harness: crash point %d/%s of epoch %d was not reached" % (k, when, e))
     if inj.events != base[e - 1]["events"][: k + 1]:
         raise RuntimeError("harness: event sequence not reproducible: %r vs %r" % (inj.events, base[e - 1]["events"]))
+    states[e] = T.snapshot(s.model, s.opt)   # what the dying update was about to save / had saved
     del s
     done = inj.events[: k + (1 if when == "after" else 0)]
     try:
-        _recover_and_verify(cfg, root, base, e)
+        _recover_and_verify(cfg, root, base, e, states)
     except _Fail as f:
         rec = dict(f.rec, epoch=e, k=k, when=when, done=["%s:%s" % tuple(x) for x in done])
         return rec
@@ -407,7 +418,7 @@ def _double_check(case):
         K = len(base[e1 - 1]["events"])
         k1, when1 = cfg["crash1"][1] % K, cfg["crash1"][2]
         with T.in_dir(d):
-            s = _replay_until(cfg, ".", e1)
+            s, states = _replay_until(cfg, ".", e1)
             inj = T.FaultInjector(k1, when1)
             try:
                 with inj.installed():
@@ -417,12 +428,16 @@ def _double_check(case):
             else:
                 raise RuntimeError("harness: first crash point not reached")
             done1 = ["%s:%s" % tuple(x) for x in inj.events[: k1 + (1 if when1 == "after" else 0)]]
+            crash_state = T.snapshot(s.model, s.opt)
             del s
             # recovery as a training script does it, then continue under a second injector
             s = T.Session(cfg, ".")
+            s.salt = 1
             s.start(scramble=5)
             L = s.ctl.get_last_epoch()
             require(L in (e1 - 1, e1), "recovered history ends at an unexpected epoch", L, [e1 - 1, e1])
+            if L == e1:
+                states[e1] = crash_state
             first_redo = L + 1
             inj2 = T.FaultInjector(cfg["crash2"][0], cfg["crash2"][1])
             e2 = None
@@ -433,9 +448,10 @@ def _double_check(case):
                         e2 = L + 1
                         s.epoch(cfg["train"][L], cfg["val"][L])
                         L += 1
+                        states[L] = T.snapshot(s.model, s.opt)
                     e2 = None
             except T.Crash:
-                pass
+                states[e2] = T.snapshot(s.model, s.opt)
             del s
             if e2 is None:
                 classes.append("second_crash_not_reached")
@@ -450,7 +466,7 @@ def _double_check(case):
                 require(ctl.get_last_epoch() == len(base), "continued run ends at another epoch", ctl.get_last_epoch(), len(base))
                 e_chk = len(base)
             try:
-                _recover_and_verify(cfg, ".", base, e_chk if e2 is not None else len(base))
+                _recover_and_verify(cfg, ".", base, e_chk, states, salt=2)
             except _Fail as f:
                 raise Violation(
                     "crash %s event %d of update %d (%s), recovery, then crash in update %s after %s -> %s: %s" % (
